@@ -7,6 +7,7 @@ CONSTANTS
   MaxLen = 2
   DedupKeys = FALSE
   AssembleByArrival = FALSE
+  FoldUnsynchronised = FALSE
 INVARIANTS EqualsReference StoreIsReference ChildAtOwner
 PROPERTIES AllDone
 CHECK_DEADLOCK FALSE
